@@ -1,4 +1,5 @@
 import Retro.Drv.RasterCommon
+import Retro.Model.F32Interp
 
 namespace Retro.Drv.C04
 open Retro Retro.Raster Retro.Drv Retro.Drv.RasterCommon
@@ -6,7 +7,7 @@ open Retro.Spec.Raster (P2)
 
 def eps : Rat := 1/1000
 
-def handle (case impl : List String) : Verdict :=
+def handleCore (case impl : List String) : Verdict :=
   match case with
   | "fill" :: ws =>
     let rs := ws.filterMap fun t => (parseF32Bits? t).bind F32.toRat?
@@ -50,5 +51,34 @@ def handle (case impl : List String) : Verdict :=
         | none => v
     | _ => bad "fill coords"
   | _ => bad "unknown op"
+
+/-- The Float32 channel (`Model/F32Interp.lean`, design/Float32.md): the model run at native binary32 on
+the same input bits, compared with the implementation's rows (y, x range, fragment count) exactly.
+`none` = bit-exact. Diagnostic only. -/
+def f32Check (case impl : List String) : Option String :=
+  match case with
+  | "fill" :: ws =>
+    match ws.filterMap F32I.f32OfHex with
+    | [x0, y0, x1, y1, x2, y2] =>
+      if ws.length != 6 then some "unparseable case" else
+      F32I.rasterCheck 0 [x0, y0, 0] [x1, y1, 0] [x2, y2, 0] impl
+    | _ => some "unparseable case"
+  | _ => some "unparseable case"
+
+/-- Adds exactly one of the tags `f32-bit-exact` / `f32-bits-differ`. Never changes the status: the first
+differing component is appended to the message of a verdict that is DIFF or SPEC for another reason. -/
+def withF32 (v : Verdict) (r : Option String) : Verdict :=
+  match r with
+  | none => v.addTag "f32-bit-exact"
+  | some m =>
+    let v := v.addTag "f32-bits-differ"
+    let note := " [f32 channel: " ++ m ++ "]"
+    match v.diff, v.spec with
+    | some d, _ => { v with diff := some (d ++ note) }
+    | none, some (k, s) => { v with spec := some (k, s ++ note) }
+    | none, none => v
+
+def handle (case impl : List String) : Verdict :=
+  withF32 (handleCore case impl) (f32Check case impl)
 
 end Retro.Drv.C04
